@@ -8,10 +8,12 @@
 package main
 
 import (
-	"unicode/utf8"
-	"unicode"
 	"bufio"
 	"bytes"
+	"crypto/hmac"
+	"crypto/sha1"
+	"encoding/base32"
+	"encoding/binary"
 	"encoding/hex"
 	"encoding/json"
 	"flag"
@@ -27,6 +29,8 @@ import (
 	"strings"
 	"sync"
 	"time"
+	"unicode"
+	"unicode/utf8"
 )
 
 // ---- mirror DTOs (internal/app/api/dto.go) ----
@@ -254,7 +258,7 @@ func (r *rng) next() uint64 {
 	z = (z ^ (z >> 27)) * 0x94D049BB133111EB
 	return z ^ (z >> 31)
 }
-func (r *rng) intn(n int) int { return int(r.next() % uint64(n)) }
+func (r *rng) intn(n int) int      { return int(r.next() % uint64(n)) }
 func pick[T any](r *rng, xs []T) T { return xs[r.intn(len(xs))] }
 
 const b32 = "ABCDEFGHIJKLMNOPQRSTUVWXYZ234567"
@@ -580,6 +584,18 @@ type violation struct {
 }
 
 // retype restores the Go types the request builder uses after a JSON round trip (numbers come back as float64)
+// refHOTP6: the six-digit SHA-1 HOTP value (RFC 4226), computed here so that follow-up validations can carry a right code
+func refHOTP6(key []byte, c uint64) string {
+	var b [8]byte
+	binary.BigEndian.PutUint64(b[:], c)
+	m := hmac.New(sha1.New, key)
+	m.Write(b[:])
+	h := m.Sum(nil)
+	o := h[len(h)-1] & 15
+	v := (uint32(h[o])&0x7f)<<24 | uint32(h[o+1])<<16 | uint32(h[o+2])<<8 | uint32(h[o+3])
+	return fmt.Sprintf("%06d", v%1000000)
+}
+
 func retype(m map[string]any) map[string]any {
 	for k, v := range m {
 		if x, ok := v.(float64); ok {
@@ -752,6 +768,82 @@ func main() {
 			}(w)
 		}
 		wg.Wait()
+	}
+	// refusal -> omission chains: a request that is REFUSED (ill-typed member after well-typed ones, missing / bad secret,
+	// refused skew, syntax error or garbage after complete members) but names every optional member with a non-default
+	// value, immediately followed on the same connection by a well-formed request for the same endpoint that omits the
+	// optional members.  The answer to the second one must not depend on the first (stateless handlers): anything a decoder
+	// or a recycled request object kept from the refused body shows as the wrong digit count / hash / period / skew.
+	{
+		nb := len(reqs)
+		sec := "GEZDGNBVGY3TQOJQGEZDGNBVGY3TQOJQ"
+		optional := `"digits":"8","algorithm":"SHA256","period":60,"skew":2`
+		type refusal struct{ pre, post string }
+		refusals := []refusal{
+			{`{"secret":"` + sec + `",` + optional + `,"digits":8}`, ""},    // a number where text is expected
+			{`{"secret":"` + sec + `",` + optional + `,"period":"60"}`, ""}, // text where a number is expected
+			{`{"secret":"` + sec + `",` + optional + `,"skew":"1","code":"123456"}`, ""},
+			{`{"secret":"` + sec + `",` + optional + `,"counter":"5"}`, ""},
+			{`{"secret":"` + sec + `",` + optional + `,"timestamp":"now"}`, ""},
+			{`{"secret":"` + sec + `",` + optional + `,"code":123456}`, ""},
+			{`{` + optional + `,"code":"123456","counter":9,"timestamp":59}`, ""},                                                               // no secret
+			{`{"secret":"!!!",` + optional + `,"code":"123456","counter":9,"timestamp":59}`, ""},                                                // bad secret
+			{`{"secret":"` + sec + `","digits":"8","algorithm":"SHA512","period":60,"skew":11,"code":"123456","counter":9,"timestamp":59}`, ""}, // refused skew
+			{`{"secret":"` + sec + `",` + optional + `,`, ""},                                                                                   // syntax error after complete members
+			{`{"secret":"` + sec + `",` + optional + `} trailing`, ""},
+			{`{"secret":"` + sec + `",` + optional + `,"secret":7}`, ""},
+		}
+		follow := func(path string) request {
+			f := map[string]any{"secret": strings.TrimSpace(genSecret(r))}
+			switch path {
+			case "/totp/generate":
+				f["timestamp"] = int64(1 + r.intn(2000000000))
+			case "/hotp/generate":
+				f["counter"] = uint64(r.intn(1000))
+			case "/totp/validate":
+				f["timestamp"] = int64(1 + r.intn(2000000000))
+				f["code"] = fmt.Sprintf("%06d", r.intn(1000000))
+			case "/hotp/validate":
+				f["counter"] = uint64(1 + r.intn(1000))
+				f["code"] = fmt.Sprintf("%06d", r.intn(1000000))
+			}
+			return request{method: "POST", path: path, body: jsonObj(f), probe: true}
+		}
+		rounds := 2
+		if *n >= 3000 {
+			rounds = 12
+		}
+		for k := 0; k < rounds; k++ {
+			for _, path := range []string{"/totp/generate", "/hotp/generate", "/totp/validate", "/hotp/validate"} {
+				for _, rf := range refusals {
+					reqs = append(reqs, request{method: "POST", path: path, body: []byte(rf.pre)}, follow(path))
+				}
+			}
+		}
+		// validation follow-ups that carry the RIGHT code of the default configuration: a stale digit count, hash, period or
+		// skew turns an acceptance into a refusal (and, with a neighbouring counter's code, a refusal into an acceptance)
+		for k := 0; k < rounds*6; k++ {
+			rf := refusals[r.intn(len(refusals))]
+			key := make([]byte, 20)
+			for i := range key {
+				key[i] = byte(r.next())
+			}
+			ks := base32.StdEncoding.WithPadding(base32.NoPadding).EncodeToString(key)
+			c := uint64(5 + r.intn(1000))
+			dist := uint64(r.intn(5)) - 2
+			code := refHOTP6(key, c+dist)
+			if r.intn(2) == 0 {
+				reqs = append(reqs, request{method: "POST", path: "/hotp/validate", body: []byte(rf.pre)},
+					request{method: "POST", path: "/hotp/validate", body: jsonObj(map[string]any{"secret": ks, "counter": c, "code": code}), probe: true})
+			} else {
+				reqs = append(reqs, request{method: "POST", path: "/totp/validate", body: []byte(rf.pre)},
+					request{method: "POST", path: "/totp/validate", body: jsonObj(map[string]any{"secret": ks, "timestamp": int64(c*30 + 7), "code": code}), probe: true})
+			}
+		}
+		results = append(results, make([]result, len(reqs)-nb)...)
+		for i := nb; i < len(reqs); i++ {
+			results[i] = send(keep, base, reqs[i])
+		}
 	}
 	// generate -> validate chains: the code one endpoint returns must validate at the matching endpoint
 	chains := 0
